@@ -339,11 +339,13 @@ def configs(chk):
         for nc in ((2, 3, 4) if quick else (2, 3, 4, 5)):
             jobs.append(("pinhole-matrix", {"nc": nc, "nq": nq}))
     for ne in ((2, 3, 4) if quick else (2, 3, 4, 5, 6)):
-        jobs.append(("qperp", {"ne": ne}))
+        jobs.append(("qperp", {"ne": ne}) + (("extended",) if ne > 5 else ()))
     for mode in ("00", "L", "W", "LW"):
-        shapes = [(2, 1), (3, 1), (2, 2)] if quick else [(2, 1), (3, 1), (4, 1), (2, 2), (3, 2)]
-        for nc, nq in shapes:
+        for nc, nq in [(2, 1), (3, 1), (2, 2)]:
             jobs.append(("slit-matrix", {"mode": mode, "nc": nc, "nq": nq}))
+        if not quick:
+            for nc, nq in [(4, 1), (3, 2)]:
+                jobs.append(("slit-matrix", {"mode": mode, "nc": nc, "nq": nq}) + (("extended",) if mode == "L" else ()))
     nmax = 2 if quick else 3
     for n in range(1, nmax + 1):
         jobs.append(("pinhole1d", {"n": n}))
@@ -390,7 +392,7 @@ def run(chk):
                        "doubles modelled as reals; sqrt(2), 2 pi b/nphi, ring radii are the exact values of the doubles"]
     jobs = configs(chk)
     if getattr(chk, "only", None):
-        jobs = [j for j in jobs if chk.only in make(*j).name]
+        jobs = [j for j in jobs if chk.only in make(*j[:2]).name]
     chk.add(pmap(unit, jobs))
 
 
